@@ -1,1 +1,89 @@
-fn main() {}
+//! `lua` stand-in: runs a chunk from stdin or a file.
+
+use std::io::{Read, Write};
+
+fn real_main() -> i32 {
+    let args: Vec<String> = std::env::args().skip(1).collect();
+    let mut file: Option<String> = None;
+    for a in args.iter() {
+        match a.as_str() {
+            "-v" => {
+                println!("Lua 5.3.6 (MiniLua)");
+                return 0;
+            }
+            "-" => file = None,
+            s if s.starts_with('-') => {}
+            s => {
+                if file.is_none() {
+                    file = Some(s.to_string());
+                }
+            }
+        }
+    }
+    let (src, name) = match &file {
+        None => {
+            let mut buf = Vec::new();
+            if std::io::stdin().read_to_end(&mut buf).is_err() {
+                eprintln!("lua: cannot read stdin");
+                return 1;
+            }
+            (buf, "stdin".to_string())
+        }
+        Some(f) => match std::fs::read(f) {
+            Ok(b) => (b, f.clone()),
+            Err(e) => {
+                eprintln!("lua: cannot open {} ({})", f, e);
+                return 1;
+            }
+        },
+    };
+    let fail = |msg: &str| {
+        let mut e = std::io::stderr();
+        let _ = writeln!(e, "lua: {}\nstack traceback:\n\t[C]: in ?", msg);
+        1
+    };
+    let chunk = match minilua::load(&src, &name) {
+        Ok(c) => c,
+        Err(e) => return fail(&format!("{}:{}: {}", name, e.line, e.msg)),
+    };
+    let mut lua = minilua::Lua::new();
+    lua.set_budget(2_000_000_000);
+    lua.set_max_call_depth(190_000);
+    lua.set_native_stack_limit(3 << 30);
+    lua.set_stream_stdout(true);
+    let r = lua.run(&chunk);
+    lua.flush_stdout();
+    match r {
+        Ok(()) => 0,
+        Err(e) => {
+            if e.kind == minilua::ErrorKind::Exit {
+                return e.exit_code as i32;
+            }
+            fail(&e.msg)
+        }
+    }
+}
+
+fn main() {
+    let child = std::thread::Builder::new().stack_size(4 << 30).spawn(|| {
+        match std::panic::catch_unwind(real_main) {
+            Ok(c) => c,
+            Err(_) => {
+                eprintln!("lua: internal error");
+                1
+            }
+        }
+    });
+    let code = match child {
+        Ok(h) => h.join().unwrap_or(1),
+        Err(_) => {
+            // could not get the big stack: run with a smaller one
+            match std::thread::Builder::new().stack_size(256 << 20).spawn(real_main) {
+                Ok(h) => h.join().unwrap_or(1),
+                Err(_) => 1,
+            }
+        }
+    };
+    let _ = std::io::stdout().flush();
+    std::process::exit(code);
+}
